@@ -230,7 +230,8 @@ def applyEvent (s : PSys) : Event → Except String PSys
   | .campaign i =>
     let n := s.nodes i
     if n.up ∧ n.vote = 0 ∧ n.role ≠ 2 ∧ 0 < i then
-      ok { s with nodes := upd s.nodes i { n with vote := i, role := 1, outbox := n.outbox ++ [.voteReq n.term i (lastTerm n.log) n.log.length] } }
+      -- the self-vote is a grant to oneself: it is counted by `win` only once released (= durable)
+      ok { s with nodes := upd s.nodes i { n with vote := i, role := 1, outbox := n.outbox ++ [.voteReq n.term i (lastTerm n.log) n.log.length, .grant n.term i i] } }
     else .error "campaign: node down, already voted in this term, or leader"
   | .grant i c =>
     let n := s.nodes i
@@ -269,14 +270,14 @@ def applyEvent (s : PSys) : Event → Except String PSys
   | .restart i =>
     let n := s.nodes i
     if !n.up then
-      ok { s with nodes := upd s.nodes i { n with up := true, term := n.dterm, vote := n.dvote, log := n.dlog, commit := n.dcommit, role := 0 } }
+      ok { s with nodes := upd s.nodes i { n with up := true, term := n.dterm, vote := n.dvote, log := n.dlog, commit := n.dcommit, role := 0, pending := [], outbox := [] } }
     else .error "restart: node is up"
   | .win i cfg q =>
     let n := s.nodes i
-    if n.up ∧ n.role = 1 ∧ n.vote = i ∧ n.dterm = n.term ∧ n.dvote = i ∧ cfg.isQuorum q ∧
-        q.all (fun v => v = i ∨ s.grants.contains ⟨n.term, v, i⟩) then
+    if n.up ∧ n.role = 1 ∧ n.vote = i ∧ cfg.isQuorum q ∧ s.grants.contains ⟨n.term, i, i⟩ ∧
+        q.all (fun v => s.grants.contains ⟨n.term, v, i⟩) then
       ok { s with nodes := upd s.nodes i { n with role := 2 }, llog := updT s.llog n.term n.log, elected := (n.term, i) :: s.elected }
-    else .error "win: not a candidate with a durable self-vote and a quorum of released grants"
+    else .error "win: not a candidate with a quorum of released grants (its own durable self-vote included)"
   | .stepDown i =>
     let n := s.nodes i
     if n.up then ok { s with nodes := upd s.nodes i { n with role := 0 } }
